@@ -68,8 +68,9 @@ fn run_with<I: Iterator, T>(
     // back to repeated `next()` for `nth`); items are converted by `f` only after they were handed out.
     let mut it = Some(it);
     let mut out = Vec::new();
-    for op in script {
+    for (step, op) in script.iter().enumerate() {
         if it.is_none() { break; }
+        crate::util::mark(1, &format!("iterator {}: script {:?}, entering step {} ({:?})", std::any::type_name::<I>(), script, step, op));
         match op {
             ItOp::Next => out.push(ItRes::Item(it.as_mut().unwrap().next().map(&mut *f))),
             ItOp::Nth(k) => out.push(ItRes::Item(it.as_mut().unwrap().nth(*k).map(&mut *f))),
